@@ -57,6 +57,28 @@ def ob_shift(cfg, N, direction, wo):
     s = z3.Solver()
     s.set("timeout", 120000)
     s.add(z3.ULT(bo, wbits))
+    # the distinct-output result is the shifted integer (this also pins which of the two results is the right one)
+    amt_n = z3.ZeroExt(N - 32, amt)
+    want = z3.LShR(a, amt_n) if direction == "right" else a << amt_n
+    for pc1, v1, r1 in results[False][0]:
+        s.push()
+        for c in pc1:
+            s.add(c)
+        s.add(eir.as_bv(v1, N) != want)
+        r = s.check()
+        nq += 1
+        if r == z3.sat:
+            m = s.model()
+            av = m.eval(a, model_completion=True).as_long()
+            bv_ = m.eval(bo, model_completion=True).as_long()
+            s.pop()
+            raise Violation("BigInt<%d>::shift_%s:%s:word-offset=%d:value" % (N, direction, cfg, wo),
+                            "BigInt<%d>::shift_%s(a, %d) into a distinct output is not a %s %d" % (N, direction, bv_ + wbits * wo, ">>" if direction == "right" else "<<", bv_ + wbits * wo),
+                            {"kernel": "bigint_%d_shift_%s" % (N, direction), "backend": cfg, "a": hex(av), "amount": bv_ + wbits * wo,
+                             "distinct": hex(m.eval(eir.as_bv(v1, N), model_completion=True).as_long())})
+        s.pop()
+        if r == z3.unknown:
+            raise Inconclusive("solver unknown comparing the shift result with the shifted integer")
     for pc1, v1, r1 in results[False][0]:
         for pc2, v2, r2 in results[True][0]:
             s.push()
@@ -275,7 +297,10 @@ def ob_hazard(fld):
 
 
 def register(chk):
-    for cfg, N in (("A", 256), ("P64", 384)) + ((("P32", 384),) if chk.tier == "thorough" else ()):
+    # every width the library instantiates (128, 192, 256, 384, 512, 768): the word counts 2, 3, 4, 6, 8, 12 include an odd one and the
+    # 768-bit in-place shift of the GLV rounding
+    for cfg, N in (("A", 256), ("P64", 384), ("A", 192), ("A", 128), ("A", 768), ("P64", 192)) + \
+            ((("P32", 384), ("P32", 192), ("A", 512), ("A", 384), ("P64", 768)) if chk.tier == "thorough" else ()):
         wbits = 32 if cfg == "P32" else 64
         for d in ("left", "right"):
             for wo in range(N // wbits):
